@@ -804,6 +804,17 @@ static void convert_brace(Chunk *br)
             tmp->SetNlCount(tmp->GetNlCount() - 1);
             LOG_FMT(LBRDEL, "%s(%d): tmp new line count is %zu\n",
                     __func__, __LINE__, tmp->GetNlCount());
+            // the line breaks before and after a removed closing brace are one
+            // run now: keep them in one chunk, the blank line limits count per chunk
+            Chunk *before = br->GetPrev();
+
+            if (  br->Is(CT_VBRACE_CLOSE)
+               && before->Is(CT_NEWLINE)
+               && before->SafeToDeleteNl())
+            {
+               tmp->SetNlCount(tmp->GetNlCount() + before->GetNlCount());
+               Chunk::Delete(before);
+            }
          }
       }
       else
